@@ -498,8 +498,20 @@ func Run(cfg hx.Config) error {
 	h.known()
 	h.knownMore()
 
+	// the same histories with LayerScanConcurrency = 3, the scanner goroutines
+	// stepped by the seeded scheduler (every Index is a `pindex` line)
+	hs := &hist{r: r, s: ctrl.NewSession(r)}
+	hs.s.Concurrency, hs.s.SchedRnd, hs.s.FaultRate = 3, rnd.Fork(), 9
+
 	nHist := cfg.N(1200, 8000)
-	for i := 0; i < nHist && !r.Stop() && !h.s.Lost; i++ {
+	nSched := cfg.N(60, 600)
+	for i := 0; i < nHist+nSched && !r.Stop() && !h.s.Lost && !hs.s.Lost; i++ {
+		if i == nHist {
+			h = hs
+		}
+		if i >= nHist {
+			r.Count("history.scheduled-goroutines")
+		}
 		h.reset()
 		salt := rnd.U64()
 		cur := c07.GenConfig(rnd, salt)
